@@ -319,7 +319,7 @@ sts_some_aux(Source *source, Sink *sink, ByteBuffer *b)
     void *buf = b->data + b->offset;
     const size_t n = byte_buffer_rest(b);
     const ssize_t rc = source_get_chunk_atmost(source, buf, n);
-    return (rc < 0) ? rc : sink_put_chunk(sink, buf, n);
+    return (rc <= 0) ? rc : sink_put_chunk(sink, buf, rc);
 }
 
 ssize_t
@@ -327,8 +327,8 @@ sts_atmost_aux(Source *source, Sink *sink, ByteBuffer *b, const size_t n)
 {
     ByteBuffer buffer;
     memcpy(&buffer, b, sizeof(*b));
-    if (buffer.size > n) {
-        buffer.size = n;
+    if (byte_buffer_rest(&buffer) > n) {
+        buffer.used = buffer.offset + n;
     }
     return sts_some_aux(source, sink, &buffer);
 }
